@@ -505,6 +505,8 @@ func parseVUI(r *bits.EBSPReader, MaxSubLayersMinus1 byte) *VUIParameters {
 		if aspectRatioIDC == avc.ExtendedSAR {
 			vui.SampleAspectRatioWidth = r.Read(16)
 			vui.SampleAspectRatioHeight = r.Read(16)
+		} else if aspectRatioIDC == 0 {
+			// Unspecified sample aspect ratio (Table E.1). Leave width and height as 0
 		} else {
 			var err error
 			vui.SampleAspectRatioWidth, vui.SampleAspectRatioHeight, err = avc.GetSARfromIDC(aspectRatioIDC)
